@@ -208,4 +208,53 @@ theorem doOps_writeOps_enoent (chunks : List Bytes) (w : World) (p : RPath) (hpa
   unfold writeOps
   simp [doOps, step, hpar]
 
+/-! ## `PurePath.stem` as modelled by `stem`: what the default output name of `skops convert` is built from -/
+
+theorem takeWhile_rev_ext (b e : List Char) (he : ∀ c ∈ e, c ≠ '.') :
+    ((b ++ '.' :: e).reverse.takeWhile (· ≠ '.')) = e.reverse := by
+  simp only [List.reverse_append, List.reverse_cons, List.append_assoc, List.singleton_append]
+  rw [List.takeWhile_append_of_pos]
+  · simp [List.takeWhile]
+  · intro c hc; simpa using he c (by simpa using hc)
+
+theorem stem_base_ext (b e : List Char) (hb : b ≠ []) (hne : e ≠ []) (he : ∀ c ∈ e, c ≠ '.') :
+    stem (String.ofList (b ++ '.' :: e)) = String.ofList b := by
+  unfold stem
+  simp only [String.toList_ofList, takeWhile_rev_ext b e he, List.length_reverse, List.length_append, List.length_cons]
+  have hb' : 0 < b.length := List.length_pos_iff.mpr hb
+  have he' : 0 < e.length := List.length_pos_iff.mpr hne
+  have h1 : ¬ (e.length == b.length + (e.length + 1)) = true := by simp; omega
+  simp only [h1]
+  have h2 : b.length + (e.length + 1) - e.length - 1 = b.length := by omega
+  simp only [h2]
+  have h3 : 0 < b.length ∧ b.length < b.length + (e.length + 1) - 1 := by omega
+  simp [h3, hne]
+
+theorem takeWhile_all {α} (p : α → Bool) : ∀ l : List α, (∀ x ∈ l, p x = true) → l.takeWhile p = l
+  | [], _ => rfl
+  | x :: xs, h => by
+    simp only [List.takeWhile, h x (by simp)]
+    rw [takeWhile_all p xs (fun y hy => h y (by simp [hy]))]
+
+theorem stem_no_dot (name : String) (h : ∀ c ∈ name.toList, c ≠ '.') : stem name = name := by
+  unfold stem
+  have : name.toList.reverse.takeWhile (· ≠ '.') = name.toList.reverse := by
+    apply takeWhile_all
+    intro c hc; simpa using h c (by simpa using hc)
+  simp only [this, List.length_reverse, beq_self_eq_true, if_true]
+
+theorem stem_leading_dot (e : List Char) (he : ∀ c ∈ e, c ≠ '.') :
+    stem (String.ofList ('.' :: e)) = String.ofList ('.' :: e) := by
+  unfold stem
+  have := takeWhile_rev_ext [] e he
+  simp only [List.nil_append] at this
+  simp only [String.toList_ofList, this, List.length_reverse, List.length_cons]
+  have h1 : ¬ (e.length == e.length + 1) = true := by simp
+  simp [h1]
+
+theorem stem_trailing_dot (b : List Char) :
+    stem (String.ofList (b ++ ['.'])) = String.ofList (b ++ ['.']) := by
+  unfold stem
+  simp
+
 end Skops.Fs
